@@ -418,3 +418,37 @@ func findClass(cs []*DecClass, addr int) *DecClass {
 	}
 	return nil
 }
+
+// addrOffset recognises an index that equals (address + off) for every address of the interval
+// [lo,hi], whichever way the source spells it: as an affine form of the address symbol
+// (addr - 0xc000) or as a bit mask (addr & 0x1fff) when the masked-off address bits are the same
+// over the whole interval.
+func addrOffset(idx *ai.Int, addrSym ai.Sym, lo, hi int) (off int64, ok bool) {
+	if idx == nil {
+		return 0, false
+	}
+	if idx.HasBase && idx.Base == addrSym {
+		return idx.Off, true
+	}
+	if lo == hi {
+		if cv, isc := idx.Const(); isc {
+			return cv - int64(lo), true // a one-address interval: the address is a constant
+		}
+	}
+	k := 0
+	for k < len(idx.Bits) && isSrcBit(idx.Bits[k], addrSym, k) {
+		k++
+	}
+	if k == 0 {
+		return 0, false
+	}
+	for i := k; i < len(idx.Bits); i++ {
+		if idx.Bits[i].K != ai.BZero {
+			return 0, false
+		}
+	}
+	if lo>>uint(k) != hi>>uint(k) {
+		return 0, false
+	}
+	return -int64((lo >> uint(k)) << uint(k)), true
+}
